@@ -33,7 +33,8 @@ CLAIMS = {
              "relations; splitting tables have exclusive drift/kick rows summing to one in a palindromic sequence; the step code "
              "applies each row as a shear evaluated at the running partial state with complementary masks; for the implicit symplectic tables 'accepted' implies "
              "'stage equations solved' (acceptance typestate of C02.4 re-judged); a kick mask given by the user reaches the splitting integrator (no @property read "
-             "through the class object, every desolver.backend name used by the mask code exists -- namespace resolved through the star imports). By the cited theorems "
+             "through the class object, every desolver.backend name used by the mask code exists -- namespace resolved through the star imports; the mask survives a change of method; on the user-mask path the integrator's mask is an elementwise "
+             "conversion of the argument). By the cited theorems "
              "this proves symplecticity/reversibility of the exact-arithmetic map for separable Hamiltonians; rounding-level and "
              "long-run energy behaviour are not decided."),
     "C11": dict(
@@ -87,7 +88,8 @@ CLAIMS["C04"] = dict(
          "controller and the Richardson wrapper is direction-symmetric (no min/max/ordering/log of signed steps); on every path of __call__ a "
          "non-adaptive explicit method hands back exactly the step it was given and an implicit one at most shrinks it after a failed stage solve "
          "(provenance lattice INPUT/SHRUNK/CONTROLLER); dTime records the requested step; integrate() overwrites dt only with the integrator's "
-         "proposal and only when the step was not the clamped last one; the clamp is taken exactly when |dt| > |tf - t| (path condition by truth table)."
+         "proposal and only when the step was not the clamped last one; the clamp is taken exactly when |dt| > |tf - t| (path condition by truth table); before the "
+         "loop the requested step is overwritten only under that same magnitude comparison."
          " The rounding/tolerance-level shift/reflection relation of computed states is "
          "not decided; well-kindedness is its necessary condition.")
 CLAIMS["C05"] = dict(
@@ -169,7 +171,7 @@ CLAIMS["C15"] = dict(
     text="Decides: for hybrj, newtontrustregion and nonlinear_roots whether the value returned in the success slot can be true while every residual test (and the "
          "external MINPACK flag) is false; that all return sites of nonlinear_roots put the residual norm in the slot the implicit integrator compares with its "
          "tolerance; that the root is reshaped to the initial guess's shape on every return path (a solver result passed through must come from a call given x0 itself); that a trial point is accepted only under a positively established progress "
-         "test (NaN-safe). The step-size success tests of hybrj/newtontrustregion are "
+         "test (NaN-safe); that the step norm read by the success expression is recomputed in every iteration. The step-size success tests of hybrj/newtontrustregion are "
          "recorded known findings. Not decided: the 'modest multiple' constant.")
 CLAIMS["C16"] = dict(
     category="other", design="DESIGN.md 4/C16",
@@ -178,7 +180,8 @@ CLAIMS["C16"] = dict(
          "calls None, never calls the cached object with the other signature, and calls a hooked or attribute-supplied Jacobian when one is attached (witness "
          "sequences are reported); each finite-difference closure evaluates at the time stored as its cache key and jac() rebuilds it when t differs; every wrapper "
          "built in DiffRHS differentiates the counted self(t, y) with the same layout; the finite-difference estimate stores d/d input idx in column idx and reshapes "
-         "to (*out, *in). Not decided: accuracy of the estimate.")
+         "to (*out, *in); the stencil weights (moment system re-solved exactly over the rationals) give an even error expansion and every column of the "
+         "(adaptive) Richardson tableau, interpreted over error expansions, removes its leading term for all base orders. Not decided: the rounding-level accuracy reached.")
 CLAIMS["C18"] = dict(
     category="other", design="DESIGN.md 4/C18",
     technique="keyword-to-source tables; def-use of args binding; axis rules; quantity-kind (direction) checking of the clipping callback and of t_eval handling",
